@@ -172,7 +172,9 @@ impl RtpsWriterProxy {
         // FIND change FROM this.changes_from_writer SUCH-THAT
         // (change.sequenceNumber == a_seq_num);
         // change.status := RECEIVED; change.is_relevant := FALSE;
-        if a_seq_num > self.highest_received_change_sn {
+        // Only the next expected change can be skipped: changes before a_seq_num that are
+        // still missing must stay missing (the writer repeats the GAP when it is asked again)
+        if a_seq_num == self.available_changes_max() + 1 {
             self.highest_received_change_sn = a_seq_num;
         }
         // Fragments of a change that is no longer expected must not be reported as pending
